@@ -23,7 +23,7 @@ rundemo() {
 clean_out=$(rundemo); clean_rc=$?
 git apply $O/patch.diff || { echo "patch does not apply"; exit 2; }
 go build ./... || { echo "does not build"; git checkout -q -- .; exit 2; }
-base=$(python3 /tmp/mut/baseline_check.py $W | head -1)
+base=$(python3 /verif/tools/baseline_check.py $W | head -1)
 mut_out=$(rundemo); mut_rc=$?
 git checkout -q -- . && git clean -fdq -e 'out*'
 echo "[$id-$TAG$k] demo clean rc=$clean_rc, with patch rc=$mut_rc; $base"
